@@ -419,9 +419,9 @@ theorem takeWhile_two (t : Bytes) :
             = min ((findByte 63 cs).getD cs.length) ((findByte 35 cs).getD cs.length) + 1 := by omega
         rw [hm, List.take_succ_cons]
 
-theorem parseUri_path (t : Bytes) (h : 0 ∉ t) : (parseUri t).path = stripQueryFragment t := by
+theorem parseUri_path (t : Bytes) : (parseUri t).path = stripQueryFragment t := by
   unfold parseUri stripQueryFragment
-  rw [cstr_of_no_nul t h, takeWhile_two]
+  rw [takeWhile_two]
   simp only
   cases hq : findByte 63 t with
   | none =>
@@ -445,9 +445,9 @@ theorem parseUri_path (t : Bytes) (h : 0 ∉ t) : (parseUri t).path = stripQuery
         simp [hqf, Nat.min_eq_right this]
 
 theorem C16 : C16_statement := by
-  intro routes authOk method target hw h0
+  intro routes authOk method target hw
   unfold handleRequest specHandle
-  rw [parseUri_path target h0, findRoute_eq_spec _ routes hw]
+  rw [parseUri_path target, findRoute_eq_spec _ routes hw]
   cases specFind (stripQueryFragment target) routes with
   | none => rfl
   | some rp =>
